@@ -87,12 +87,57 @@ def gen_history(rng, nd, ncmd):
     return ops
 
 
+def gen_history_plain(rng, nd, ncmd):
+    """histories for the commands the sync-loop model does not replay (judged by the independent oracles only): pre-hash,
+    forced realloc, rehash in progress, touch, parity-only / filtered / range fix, the scrub plans"""
+    names = ['a', 'b', 'c', 'dir/x', 'dir/y', 'e']
+    ops = []
+    for step in range(ncmd):
+        for _ in range(rng.randint(1, 4) if step else rng.randint(3, 6)):
+            k = rng.random()
+            d = 'd%d' % rng.randint(1, nd); n = rng.choice(names)
+            if k < 0.5 or step == 0:
+                ops.append(('write', d, n, rng.choice(SIZES_BLK)))
+            elif k < 0.65:
+                ops.append(('remove', d, n))
+            elif k < 0.75:
+                ops.append(('copy', d, n, 'd%d' % rng.randint(1, nd)))
+            elif k < 0.85:
+                ops.append(('move', d, n, 'd%d' % rng.randint(1, nd), rng.choice(names)))
+            elif k < 0.92:
+                ops.append(('touch', d, n))
+            else:
+                ops.append(('corrupt', d, rng.getrandbits(16)))
+        c = rng.random()
+        if c < 0.22:
+            ops.append(('sync', '-h'))
+        elif c < 0.3:
+            ops.append(('sync', '-h', '-B', str(rng.randint(1, 3))))
+        elif c < 0.38:
+            ops.append(('sync', '-R'))
+        elif c < 0.46:
+            ops.append(('rehash',))
+        elif c < 0.54:
+            ops.append(('touchcmd',))
+        elif c < 0.62:
+            ops.append(('fixsel', rng.choice(['parity', 'data', 'file', 'range', 'bad'])))
+        elif c < 0.72:
+            ops.append(('scrub', '-p', rng.choice(['new', 'bad', '50', '100', 'full'])) + (('-o', '0') if rng.random() < 0.5 else ()))
+        elif c < 0.8:
+            ops.append(('sync', '--test-force-autosave-at', str(rng.randint(1, 3))))
+        else:
+            ops.append(('sync',))
+    ops.append(('sync',))
+    return ops
+
+
 class Hist:
     """one array driven through a history, with the invariant oracles applied after every tool command"""
 
-    def __init__(self, chk, binary, shim, model, rng, nd, np_, zmode=False, with_model=True, hasher=None):
+    def __init__(self, chk, binary, shim, model, rng, nd, np_, zmode=False, with_model=True, hasher=None, **arrkw):
         self.chk, self.rng = chk, rng
-        self.arr = Array(binary, nd=nd, np_=np_, shim=shim, zmode=zmode)
+        self.arr = Array(binary, nd=nd, np_=np_, shim=shim, zmode=zmode, **arrkw)
+        self.first_sync_opts = []
         self.br = Bridge(self.arr)
         self.model = model
         self.hasher = hasher
@@ -223,15 +268,48 @@ class Hist:
                     a.note_version(dd, rel)      # (a silently corrupted file keeps size+mtime of a known version: not a new version)
             self.invariants('fix -m')
             return
+        if op[0] in ('rehash', 'touchcmd', 'fixsel'):
+            try:
+                st = a.content()
+            except Exception:
+                st = None
+            if op[0] == 'rehash':
+                args = ['rehash']
+            elif op[0] == 'touchcmd':
+                args = ['touch']
+            else:
+                files = [(d, f) for d, dd in (st['disks'].items() if st else []) for f in dd['files']]
+                kind = op[1]
+                if kind == 'parity':
+                    args = ['fix', '-d', self.rng.choice(['parity', '2-parity'][:a.np])]
+                elif kind == 'data':
+                    args = ['fix', '-d', self.rng.choice(a.disks)] + (['-m'] if self.rng.random() < 0.5 else [])
+                elif kind == 'file' and files:
+                    args = ['fix', '-f', self.rng.choice(files)[1]['sub'].decode('latin1').split('/')[-1]]
+                elif kind == 'range':
+                    args = ['fix', '-S', str(self.rng.randint(0, 2)), '-B', str(self.rng.randint(1, 3))]
+                else:
+                    args = ['fix', '-e']
+            r = a.run(*args)
+            self.log.append(args + [r.rc])
+            # whatever the command created or rewrote (restored files, *.unrecoverable, new time-stamps) is a known version
+            for (dd, rel), v in a.snapshot_data().items():
+                if v[0] == 'f' and not any(len(x[0]) == len(v[1]) and x[1] == v[2] for x in a.store.get((dd, rel), [])):
+                    a.note_version(dd, rel)
+            self.invariants(' '.join(args))
+            return
         args = list(op)
         self.fail = None
+        if op[0] == 'sync' and self.first_sync_opts:
+            args += self.first_sync_opts
+            self.first_sync_opts = []
         if op[0] == 'sync' and '@fail' in op:
             k = op.index('@fail')
             self.fail = (op[k + 1], op[k + 2], op[k + 3])
             args = list(op[:k])
         if op[0] == 'sync':
             args += ['--force-empty', '--force-zero']
-        if op[0] == 'sync' and self.with_model and '--test-kill-after-sync' not in op and '-F' not in op:
+        if op[0] == 'sync' and self.with_model and '--test-kill-after-sync' not in op and '-F' not in op and '-h' not in op and '-R' not in op:
             self.sync_with_model(args)
         else:
             r = a.run(*args)
@@ -419,7 +497,7 @@ class Hist:
 
     def run(self, ops):
         for op in ops:
-            if op[0] in ('sync', 'scrub', 'fixmissing'):
+            if op[0] in ('sync', 'scrub', 'fixmissing', 'rehash', 'touchcmd', 'fixsel'):
                 self.tool(op)
             else:
                 self.fs_op(op)
@@ -446,8 +524,14 @@ def main(tier, replay=None):
     rng = chk.rng
     if replay:
         rp = json.load(open(replay))['replay']
-        H = Hist(chk, binary, shim, model, random.Random(rp['seed']), rp['nd'], rp['np'], hasher=hasher)
-        H.rinfo = {'nd': rp['nd'], 'np': rp['np'], 'seed': rp['seed'], 'ops': rp['ops']}
+        if rp.get('plain'):
+            kw = dict(rp['plain']); murmur = kw.pop('murmur_first', False)
+            H = Hist(chk, binary, shim, model, random.Random(rp['seed']), rp['nd'], rp['np'], with_model=False, hasher=None, **kw)
+            if murmur:
+                H.first_sync_opts = ['--test-force-murmur3']
+        else:
+            H = Hist(chk, binary, shim, model, random.Random(rp['seed']), rp['nd'], rp['np'], hasher=hasher)
+        H.rinfo = {'nd': rp['nd'], 'np': rp['np'], 'seed': rp['seed'], 'ops': rp['ops'], 'plain': rp.get('plain')}
         H.run([tuple(o) for o in rp['ops']])
         print('replayed history on', H.arr.root, '(kept for inspection)' if os.environ.get('VERIF_KEEP') else '')
         for l in H.log:
@@ -468,10 +552,29 @@ def main(tier, replay=None):
         ops = gen_history(random.Random(rng.getrandbits(32)), nd, rng.randint(4, 8))
         hists.append((nd, np_, ops, rng.getrandbits(32)))
 
+    # oracle-only histories (pre-hash, realloc, rehash in progress, touch, selective fix, scrub plans; also split parity, several
+    # content copies, reduced hash size): no model replay, every command judged by the independent map and parity oracles
+    nplain = 16 if tier == 'quick' else 120
+    for h in range(nplain):
+        nd = rng.choice([2, 3, 4])
+        np_ = rng.choice([1, 2, 2, 3])
+        ops = gen_history_plain(random.Random(rng.getrandbits(32)), nd, rng.randint(4, 7))
+        kw = {'plain': True, 'murmur_first': rng.random() < 0.6, 'splits': rng.choice([1, 1, 2, 3]), 'ncontent': rng.choice([1, 1, 2]),
+              'hashsize': rng.choice([None, None, 8])}
+        hists.append((nd, np_, ops, rng.getrandbits(32), kw))
+
     def one(hh):
-        nd, np_, ops, seed = hh
-        H = Hist(chk, binary, shim, model, random.Random(seed), nd, np_, hasher=hasher)
-        H.rinfo = {'nd': nd, 'np': np_, 'seed': seed, 'ops': ops}
+        nd, np_, ops, seed = hh[:4]
+        kw = dict(hh[4]) if len(hh) > 4 else {}
+        if kw.pop('plain', False):
+            murmur = kw.pop('murmur_first')
+            H = Hist(chk, binary, shim, model, random.Random(seed), nd, np_, with_model=False, hasher=None, **kw)
+            if murmur:
+                H.first_sync_opts = ['--test-force-murmur3']     # so that a later `rehash` has something to do
+            H.rinfo = {'nd': nd, 'np': np_, 'seed': seed, 'ops': ops, 'plain': dict(kw, murmur_first=murmur)}
+        else:
+            H = Hist(chk, binary, shim, model, random.Random(seed), nd, np_, hasher=hasher)
+            H.rinfo = {'nd': nd, 'np': np_, 'seed': seed, 'ops': ops}
         H.run(ops)
         shutil.rmtree(H.arr.root, ignore_errors=True)
         return H
@@ -481,7 +584,7 @@ def main(tier, replay=None):
             if len(samples) < 3:
                 samples.append({'nd': H.arr.nd, 'np': H.arr.np, 'history': H.log[:14]})
     chk.cov.update({'evaluations': total_cmds, 'distinct_nontrivial': total_cmds,
-                    'rule': 'generated histories of FS changes (write/remove/move/copy/append/truncate at block-boundary sizes) and tool commands (sync full/partial -S -B/autosave+kill-after-sync/forced -F, scrub, fix -m after a deletion) on %d arrays; after EVERY tool command the independent decoder checks the block map and the independent parity checker recomputes every level of every all-BLK stripe from the harness version store; non-trivial = tool commands executed' % nh,
+                    'rule': 'generated histories of FS changes (write/remove/move/copy/append/truncate at block-boundary sizes) and tool commands (sync full/partial -S -B/autosave+kill-after-sync/forced -F, scrub, fix -m after a deletion) on %d arrays, plus %d oracle-only histories (sync -h pre-hash, -R, rehash in progress after a murmur3 first sync, touch, fix -d parity / -d disk / -f / -S -B / -e, scrub plans new/bad/percentage/full with -o 0, forced autosave; split parity, 1-2 content copies, hash size 16/8); after EVERY tool command the independent decoder checks the block map and the independent parity checker recomputes every level of every all-BLK stripe from the harness version store; non-trivial = tool commands executed' % (nh, nplain),
                     'histories': nh, 'all_blk_stripes_recomputed': total_stripes, 'sync_steps_replayed_by_model': total_model,
                     'traces_validated_against_impl': total_model})
     chk.cov['samples'] = samples
@@ -490,5 +593,5 @@ def main(tier, replay=None):
                       {'theorem_file': 'coq/Props/Properties_C06.v', 'failed': ob['failed'], 'log_tail': ob['log'][-1500:]}, no_input=True)
     chk.assumptions += ['parity-write faults are excluded from the invariant theorem (they are the subject of C08)',
                         'hash collision-freedom on the finite set of blocks of each history; parity blocks of one level are equal iff they encode the same vector',
-                        'rehash (hash migration), pre-hash, Windows paths not modelled']
+                        'rehash (hash migration), pre-hash, forced realloc, touch and the selective fix runs are outside the sync-loop MODEL; they are exercised by oracle-only histories (independent map and parity oracles after every command)']
     return chk.finish()
